@@ -285,3 +285,70 @@ Section NodeWalk.
       rewrite kept_nedges. apply in_map. exact Hv.
   Qed.
 End NodeWalk.
+
+(* ================================================================================================================= *)
+(* end to end: MinFlowDecompCycles in node mode returns the least number of walks of an admissible node walk decomposition *)
+Theorem node_mfdc_returns_minimum_within_caps
+    (V : list node) (E : list PathEnc.edge) (S T : list node) (s t : node) (Wn : list node) (fq : node -> Q) (ign : list node) (isint : bool)
+    (out : nat -> outcome) (tout : nat -> bool) (lb nE kmin : nat) :
+  ~ In s (expV V) -> ~ In t (expV V) -> s <> t -> (forall e, In e E -> In (fst e) V /\ In (snd e) V) -> NoDup V -> NoDup E ->
+  (forall v, In v V -> ~ In v ign -> In v Wn) ->
+  (* solver specification for the k-models of the expanded instance *)
+  (forall j, out j = Optimal <-> exists a, sat a (encode_kfdc (node_kfdc_inst V E S T s t Wn fq ign isint j))) ->
+  (forall j, out j = Infeasible <-> ~ exists a, sat a (encode_kfdc (node_kfdc_inst V E S T s t Wn fq ign isint j))) ->
+  (forall j, tout j = false) ->
+  (* kmin is the least number of walks of an admissible node walk decomposition, and it lies in the searched range *)
+  (exists Pn wt, node_admissible V E S T s t Wn fq ign isint kmin Pn wt) ->
+  (forall j, (j < kmin)%nat -> ~ exists Pn wt, node_admissible V E S T s t Wn fq ign isint j Pn wt) ->
+  (lb <= kmin <= nE)%nat ->
+  mfdc_solve out tout None lb nE = Solved kmin.
+Proof.
+  intros Hs Ht Hst HE NDV NDE HWn Hopt Hinf Htout Hmin Hless Hrange.
+  apply (mfdc_returns_minimum_within_caps (fun j => node_kfdc_inst V E S T s t Wn fq ign isint j) out tout None lb nE kmin).
+  - intros j. split; [reflexivity|]. split; [apply (wf_I V E S T s t Wn fq ign isint Hs Ht Hst HE NDV NDE)|]. split; [reflexivity|apply inputs_ok_I].
+  - exact Hopt.
+  - exact Hinf.
+  - exact Htout.
+  - intros g Hg. discriminate Hg.
+  - apply (node_walk_decomposition_iff V E S T s t Wn fq ign isint Hs Ht Hst HE HWn kmin). exact Hmin.
+  - intros j Hj Hex. apply (Hless j Hj). apply (node_walk_decomposition_iff V E S T s t Wn fq ign isint Hs Ht Hst HE HWn j). exact Hex.
+  - exact Hrange.
+Qed.
+
+(* ================================================================================================================= *)
+(* non-vacuity: 1 -> 2 -> 3 with a self-loop at 2, node weights 2, 6, 2.  One walk 1 2 2 2 3 of weight 2 visits node 2 three times:
+   an admissible node walk decomposition with 1 walk (the node edge of 2 lies in an SCC of the expansion - the self-loop became the
+   cycle 2.0 -> 2.1 -> 2.0 - and has cap 6 >= 3; the connecting edge of the self-loop has the default cap w_max = 6 >= 2); none
+   with 0 walks. *)
+Definition lxV : list node := [1; 2; 3]%N.
+Definition lxE : list PathEnc.edge := [(1, 2); (2, 2); (2, 3)]%N.
+Definition lxfq (v : node) : Q := if (v =? 2)%N then 6%Q else 2%Q.
+Definition lxPn (_ : N) : list node := [1; 2; 2; 2; 3]%N.
+Definition lxw (_ : N) : Q := 2%Q.
+
+Lemma lx_premises :
+  NoDup lxV /\ NoDup lxE /\ (forall e, In e lxE -> In (fst e) lxV /\ In (snd e) lxV) /\
+  ~ In 100%N (expV lxV) /\ ~ In 101%N (expV lxV) /\ 100%N <> 101%N /\ (forall v, In v lxV -> ~ In v [] -> In v lxV) /\
+  node_admissible lxV lxE [] [] 100%N 101%N lxV lxfq [] false 1 lxPn lxw /\
+  visits 2%N (lxPn 0%N) = 3%Z /\ traversals (2, 2)%N (lxPn 0%N) = 2%Z /\
+  ~ (exists Pn wt, node_admissible lxV lxE [] [] 100%N 101%N lxV lxfq [] false 0 Pn wt).
+Proof.
+  split; [repeat constructor; cbn; intuition discriminate|].
+  split; [repeat constructor; cbn; intuition discriminate|].
+  split; [intros e He; cbn in He; destruct He as [<-|[<-|[<-|[]]]]; cbn; tauto|].
+  split; [cbn; intuition discriminate|]. split; [cbn; intuition discriminate|]. split; [discriminate|].
+  split; [intros v Hv _; exact Hv|].
+  split; [|split; [reflexivity|split; [reflexivity|]]].
+  - split.
+    + split; [|split].
+      * intros i _. unfold lxPn, nwalk. split; [discriminate|]. split; [intros x Hx; cbn in Hx |- *; tauto|].
+        split; [intros e He; cbn in He |- *; tauto|]. split; reflexivity.
+      * intros i _. split; [unfold lxw; lra|discriminate].
+      * intros v Hv. cbn in Hv. destruct Hv as [<-|[<-|[<-|[]]]]; vm_compute; reflexivity.
+    + unfold node_within_caps. split; [|split; [|split]].
+      * intros i _. vm_compute. discriminate.
+      * intros i e _ He. cbn in He. repeat (destruct He as [<-|He]; [vm_compute; discriminate|]). destruct He.
+      * intros i e _ He _. vm_compute in He. repeat (destruct He as [<-|He]; [vm_compute; reflexivity|]). destruct He.
+      * intros i e _ He. vm_compute in He. repeat (destruct He as [<-|He]; [vm_compute; discriminate|]). destruct He.
+  - intros (Pn & wt & (_ & _ & Hf) & _). specialize (Hf 1%N ltac:(cbn; tauto)). cbn in Hf. discriminate Hf.
+Qed.
